@@ -4,6 +4,7 @@ from hypothesis import strategies as st
 
 from .. import plotgen, pools, refread, slicegen
 from ..harness import POISONS, poisoned_empty, qcall
+from ..harness import verbosity as harness_verbosity
 
 ID = "C07"
 LEVEL = "exploration"
@@ -86,7 +87,7 @@ def check_case(case, ctx):
             pools.set_schedule(case["sched"] if not serial else None)
             try:
                 with poisoned_empty(pv):
-                    m = qcall(Mandoline, "src", fields=list(req), limit_level=limit, serial=serial, verbose=0)
+                    m = qcall(Mandoline, "src", fields=list(req), limit_level=limit, serial=serial, verbose=harness_verbosity(case))
                     runs[(pv, serial)] = qcall(m.slice, normal=cn, pos=p, fformat="return")
             except Exception as e:
                 return [f"mandoline raised {type(e).__name__}: {e} (normal={cn} pos={p} serial={serial})"]
@@ -107,7 +108,7 @@ def check_case(case, ctx):
         pools.set_schedule(None)
         try:
             with poisoned_empty(POISONS[0]):
-                m = qcall(Mandoline, "src", fields=list(req), limit_level=limit, serial=hserial, verbose=0)
+                m = qcall(Mandoline, "src", fields=list(req), limit_level=limit, serial=hserial, verbose=harness_verbosity(case))
                 # (first along another normal: an explicit normal, 0 included, must not fall back to the previous one)
                 qcall(m.slice, normal=(cn + 1 + case["pos"]["index"] % 2) % 3, pos=None, fformat="return")
                 kept = qcall(m.slice, normal=cn, pos=p2, fformat="return")
